@@ -242,10 +242,11 @@ pub(crate) enum MarkInput<'a> {
     Unknown,
     /// The whole in-memory input.
     Text(&'a str),
-    /// A reader whose stream has ended inside a line (no final line break): the number of
-    /// characters it delivered and the number of characters in that unterminated last line.
+    /// A reader whose stream has ended inside a line (no final line break): the number of that
+    /// unterminated last line (line breaks counted as the parser counts them) and the number of
+    /// characters in it.
     ReaderEndedInLine {
-        total_chars: usize,
+        last_line: usize,
         last_line_chars: usize,
     },
 }
@@ -279,11 +280,15 @@ pub(crate) fn mark_line_and_column(mark: &Marker, input: MarkInput<'_>) -> (usiz
                 }
             }
             MarkInput::ReaderEndedInLine {
-                total_chars,
+                last_line,
                 last_line_chars,
             } => {
-                if total_chars > 0 && mark.index() >= total_chars {
-                    return (mark.line() - 1, last_line_chars + 1);
+                // The closing mark names the line AFTER the unterminated last line; a token at the
+                // start of the last line itself is a real position. (The mark's character index is
+                // not used: the parser counts some skipped text — comments, directive lines — in
+                // bytes for reader input.)
+                if mark.line() == last_line + 1 {
+                    return (last_line, last_line_chars + 1);
                 }
             }
             MarkInput::Unknown => {}
